@@ -298,6 +298,9 @@ func (pod *Pod) ConvertPodNamedPort(namedPort string) (protocol string, portNum 
 
 // updatePodXgressExposureToEntireClusterData updates the pods' fields which are related to entire class exposure on ingress/egress
 func (pod *Pod) UpdatePodXgressExposureToEntireClusterData(ruleConns *common.ConnectionSet, isIngress bool) {
+	if pod.FakePod { // a fake pod (e.g. the ingress-controller pod) is not analysed for exposure and holds no exposure data
+		return
+	}
 	if isIngress {
 		// for a dst pod check if the given ruleConns contains namedPorts; if yes replace them with pod's
 		// matching port number
